@@ -27,9 +27,10 @@ def seq_append(ip, s, x):
 
 def seq_concat(ip, a, b):
     la = a.length
+    ga, gb = a.get, b.get
     return SeqV(
         z3.simplify(la + b.length),
-        lambda j: ip.ite_val(mk(j < la, "bool"), a.get(j), b.get(z3.simplify(j - la))),
+        lambda j: ip.ite_val(mk(j < la, "bool"), ga(j), gb(z3.simplify(j - la))),
         a.kind,
         a.name,
     )
@@ -67,7 +68,8 @@ def seq_slice(ip, s, sl):
     hi = n if sl.stop is None else _clamp(_norm_index(s, sl.stop), zero, n)
     ln = z3.simplify(z3.If(hi > lo, hi - lo, zero))
     lo = z3.simplify(lo)
-    return SeqV(ln, lambda j: s.get(z3.simplify(j + lo)), s.kind, s.name)
+    get = s.get
+    return SeqV(ln, lambda j: get(z3.simplify(j + lo)), s.kind, s.name)
 
 
 class FSetV:
